@@ -1476,3 +1476,11 @@ def check_c18(model, rep, tier):
     r_dump_order(model, rep)
     r_dump_validates(model, rep)
     r_json_native(model, rep)
+    # R-JSON-NATIVE reads the types the validators *ask for*; it is the helpers that decide what they accept (an _assert_type
+    # that lets bytes pass for str makes json.dump fail after the destination was opened)
+    from ..core import Report
+    sub = Report("C18", "quick")
+    r_assert_helpers(model, sub)
+    for o in sub.obligations:
+        if o.construct.endswith("_assert_type") or "_assert_type(" in o.construct:
+            rep.ob(o.rule, o.construct, o.ok, site=o.site, msg=o.msg, facts=o.facts)
